@@ -627,6 +627,9 @@ def np_call(ev, name, args, kwargs, node):
             return disj(list(x0.items)) if name == "any" else conj(list(x0.items))
     if name in ("abs", "absolute", "fabs"):
         return mk_app("abs", [as_v(ev, arg(0))])
+    if name == "square":
+        x0 = as_v(ev, arg(0))
+        return ev.int_product(mul(x0, x0), x0, x0, node)
     if name == "power":
         return ev.int_product(powv(as_v(ev, arg(0)), as_v(ev, arg(1))), as_v(ev, arg(0)), as_v(ev, arg(1)), node)
     if name == "isscalar":
